@@ -131,7 +131,7 @@ def run(ctx):
         e = found[0]
         ctx.violation({"case": e["case"], "failure": e["failure"],
                        "broken": [f["target"] for f in failures] + (["correspondence C04.Corr.check"] if bad else [])},
-                      True, "defining equation violated on the implementation: " + e["failure"])
+                      True, "defining equation / reporting contract violated on the implementation: " + e["failure"])
         return
     for f in failures:
         ctx.violation({"obligation": f["target"], "lemma": f["lemma"], "errors": f["errors"]}, False,
